@@ -62,7 +62,7 @@ Star(n) == <<"*">> \o n
 
 \* Every name that can occur, in a fixed order; vectors refer to names by
 \* their position in this sequence (the header vector carries the sequence).
-\* Names of the long-chain family: leads l1 .. l33 and tails t1 .. t3 under a
+\* Names of the long-chain family: leads l1 .. l33 and tails t1 .. t33 under a
 \* top-level label of their own (no pattern of the other universes matches).
 LN(i) == <<"l" \o ToString(i), "k">>
 TN(i) == <<"t" \o ToString(i), "k">>
@@ -70,15 +70,19 @@ MaxChain == 33
 
 NameSeq == <<c, ac, bc, xa_c, xac, yac, xbc, yxac, ed,
              Star(c), Star(ac), Star(bc), Star(xac)>>
-             \o [i \in 1..MaxChain |-> LN(i)] \o [i \in 1..3 |-> TN(i)]
+             \o [i \in 1..MaxChain |-> LN(i)] \o [i \in 1..MaxChain |-> TN(i)]
 NameIdx == [n \in {NameSeq[i] : i \in DOMAIN NameSeq} |->
               CHOOSE i \in DOMAIN NameSeq : NameSeq[i] = n]
 
 QNames == IF U = "big" THEN {c, ac, bc, xa_c, xac, yac, xbc, yxac, ed}
           ELSE IF U = "hist" THEN {ac, bc, xa_c, xac, yxac, ed}
-          ELSE IF U = "chain" THEN {LN(1), LN(2), LN(8), LN(9), LN(MaxChain), TN(1), TN(2), TN(3), ed}
+          ELSE IF U = "chain" THEN {LN(1), LN(2), LN(5), LN(8), LN(9), LN(MaxChain),
+                                    TN(1), TN(2), TN(3), TN(9), ed}
           ELSE {c, ac, bc, xa_c, xac, yxac, ed}
-QTypes == {"A", "AAAA", "TXT"}
+\* (The termination run on the long-chain family asks for one address type
+\* and one other type only: the chase of CNAMEs does not look at the type before
+\* its last step, and behaviours there are up to 46 steps deep.)
+QTypes == IF U = "chain" /\ Mode = "live" THEN {"A", "TXT"} ELSE {"A", "AAAA", "TXT"}
 Queries == {[h |-> h, t |-> t] : h \in QNames, t \in QTypes}
 
 \* --------------------------------------------------------------- entries
@@ -184,14 +188,25 @@ LadderTablesOf(sh) ==
 (*   addr     in a name with addresses of both families,                   *)
 (*   keyword  in a name with the "A" keyword,                              *)
 (*   none     in a name the table does not mention,                        *)
-(* entries in chain order or reversed.  The tables are written down        *)
-(* directly, not enumerated.  Queries: l1, l2, l8, l9, l33, the tails.     *)
+(* entries in chain order or reversed; and rings: a lead-in chain of        *)
+(* 0, 1, 2 or 9 names into a cycle t1 -> t2 -> ... -> tC -> t1 of          *)
+(* C in {7, 8, 9, 10, 16, 17, 33} names (a long cycle entered from a       *)
+(* queried name outside it; a query for t1 or t9 is on the cycle).  The    *)
+(* tables are written down directly, not enumerated.  Queries: l1, l2, l5, *)
+(* l8, l9, l33, t1, t2, t3, t9.                                            *)
 (***************************************************************************)
 ChainLens == {1, 2, 7, 8, 9, 16, MaxChain}
 ChainEnds == {"self", "cycle2", "cycle3", "back", "addr", "keyword", "none"}
+RingLeads == {0, 1, 2, 9}
+RingLens == {7, 8, 9, 10, 16, 17, MaxChain}
 ChainShapes == {<<L, e>> : L \in ChainLens, e \in ChainEnds}
+                 \cup {<<L, "ring", C>> : L \in RingLeads, C \in RingLens}
 ExactPat(n) == [w |-> FALSE, n |-> n]
+RingTable(L, C) ==
+    [i \in 1..L |-> Cn(ExactPat(LN(i)), IF i < L THEN LN(i + 1) ELSE TN(1))]
+      \o [i \in 1..C |-> Cn(ExactPat(TN(i)), IF i < C THEN TN(i + 1) ELSE TN(1))]
 ChainTablesOf(sh) ==
+    IF sh[2] = "ring" THEN {RingTable(sh[1], sh[3]), Reverse(RingTable(sh[1], sh[3]))} ELSE
     LET L == sh[1]
         e == sh[2]
         lead == [i \in 1..L |-> Cn(ExactPat(LN(i)), IF i < L THEN LN(i + 1)
